@@ -1071,6 +1071,10 @@ def run_C04(ctx):
     tl = textdiff_lines(ctx, cases)
     C.evaluate(ctx, "textdiff", tl, rel, nontrivial=nontrivial_text)
     C.evaluate(ctx, "textdiff-debug-build", debug_subset(ctx, tl, tiered(ctx, 3000, 30000)), rel, dbg=True, nontrivial=nontrivial_text)
+    # the structured families around the 100-token switch (repeated heads and tails, one-sided blocks, identical
+    # texts): the branch above the switch works on the token numbers of IdentifyDistinct
+    C.evaluate(ctx, "textdiff-around-threshold", textdiff_lines(ctx, threshold_text_cases(ctx)), rel,
+               nontrivial=nontrivial_text, cap=60)
     C.evaluate(ctx, "textdiff-65536-distinct", huge_distinct_cases(ctx), rel, x=False, cap=300, nontrivial=nontrivial_text)
 
 
